@@ -273,18 +273,20 @@ def encode_spo(
 
     """
     rows: list[jelly.RdfStreamRow] = []
+    # None also marks "no previous term" in repeated_terms: a None term must reach
+    # the term encoder (which refuses it) instead of passing for a repeated term.
     s = next(terms)
-    if repeated_terms[Slot.subject] != s:
+    if s is None or repeated_terms[Slot.subject] != s:
         extra_rows = term_encoder.encode_spo(s, Slot.subject, statement)
         rows.extend(extra_rows)
         repeated_terms[Slot.subject] = s
     p = next(terms)
-    if repeated_terms[Slot.predicate] != p:
+    if p is None or repeated_terms[Slot.predicate] != p:
         extra_rows = term_encoder.encode_spo(p, Slot.predicate, statement)
         rows.extend(extra_rows)
         repeated_terms[Slot.predicate] = p
     o = next(terms)
-    if repeated_terms[Slot.object] != o:
+    if o is None or repeated_terms[Slot.object] != o:
         extra_rows = term_encoder.encode_spo(o, Slot.object, statement)
         rows.extend(extra_rows)
         repeated_terms[Slot.object] = o
@@ -339,7 +341,7 @@ def encode_quad(
     term_encoder.begin_row()
     rows = encode_spo(terms, term_encoder, repeated_terms, quad)
     g = next(terms)
-    if repeated_terms[Slot.graph] != g:
+    if g is None or repeated_terms[Slot.graph] != g:
         extra_rows = term_encoder.encode_graph(g, quad)
         rows.extend(extra_rows)
         repeated_terms[Slot.graph] = g
